@@ -107,3 +107,58 @@ def stmt_end(src, i):
         if c == ';': return j
         j += 1
     raise ValueError('no statement end')
+
+BLOCK_KW = ('if ', 'if(', 'for ', 'while ', 'loop ', 'loop{', 'match ', 'unsafe ', '{')
+
+def split_stmts(body):
+    """body = inner text of a block (without the enclosing braces).  Returns [(start, end)] of its top-level statements
+    (the last one may be a tail expression without `;`)."""
+    out, i, n = [], 0, len(body)
+    while i < n:
+        k = skip_trivia_and_literals(body, i)
+        if k != i and (body.startswith('//', i) or body.startswith('/*', i)):
+            i = k; continue
+        if body[i] in ' \t\n\r':
+            i += 1; continue
+        start = i
+        label = re.match(r"'[A-Za-z_][A-Za-z0-9_]*\s*:\s*", body[i:])
+        j = i + (len(label.group(0)) if label else 0)
+        if body.startswith(BLOCK_KW, j):
+            # block-like expression statement: `if .. {..} else if .. {..} else {..}`, `for .. {..}`, `match .. {..}`, `{..}`
+            while True:
+                bo = j if body[j] == '{' else body_open(body, j)
+                if bo < 0: raise ValueError('no block for statement at %d' % start)
+                bc = match_close(body, bo)
+                e = bc + 1
+                m = re.match(r'\s*else\b\s*', body[e:])
+                if m and body.startswith('if', j):
+                    j = e + len(m.group(0))
+                    if body[j] == '{':
+                        bc = match_close(body, j); e = bc + 1; break
+                    continue
+                break
+            # a trailing `;` or a method chain on the block value belongs to the statement
+            m = re.match(r'[ \t]*;', body[e:])
+            if m: e += len(m.group(0))
+            elif re.match(r'\s*[.?]', body[e:]):
+                try: e = stmt_end(body, e) + 1
+                except ValueError: e = n
+            out.append((start, e)); i = e; continue
+        try:
+            e = stmt_end(body, i) + 1
+        except ValueError:
+            e = n
+            while e > i and body[e - 1] in ' \t\n\r': e -= 1
+        out.append((start, e)); i = e
+    return out
+
+def find_for_loops(text):
+    """[(for_index, body_open, body_close)] of every `for PAT in EXPR {` loop in text, outermost first."""
+    out = []
+    for i in code_positions(text):
+        if text.startswith('for ', i) and (i == 0 or not (text[i-1].isalnum() or text[i-1] == '_')):
+            bo = body_open(text, i)
+            if bo < 0: continue
+            if ' in ' not in text[i:bo]: continue      # `for<'a>` bounds etc.
+            out.append((i, bo, match_close(text, bo)))
+    return out
